@@ -173,11 +173,11 @@ func TestVerifMetricsConcurrent(t *testing.T) {
 			together(cfg.G, func(g int, lg func(map[string]any)) {
 				c := &vmConn{id: int(nextID.Add(1)), ip: bip}
 				if g%2 == 0 {
-					c.udp = m.AddUDPNatEntry(vfUDPAddr(bip), vfKey(bkey))
-					lg(map[string]any{"ev": "NatAdd", "c": c.id, "ip": bip, "key": bkey})
+					c.udp = m.AddUDPNatEntry(vfAddrF(bip, g%3+1, true), vfKey(bkey))
+					lg(map[string]any{"ev": "NatAdd", "c": c.id, "ip": bip, "key": bkey, "f": g%3 + 1})
 				} else {
-					c.tcp = m.AddOpenTCPConnection(&vfTCPConn{local: vfListeners[g%2], remote: vfTCPAddr(bip)})
-					lg(map[string]any{"ev": "Open", "c": c.id, "ip": bip})
+					c.tcp = m.AddOpenTCPConnection(&vfTCPConn{local: vfListeners[g%2], remote: vfAddrF(bip, g%3+1, false)})
+					lg(map[string]any{"ev": "Open", "c": c.id, "ip": bip, "f": g%3 + 1})
 					c.tcp.AddAuthenticated(vfKey(bkey))
 					lg(map[string]any{"ev": "Auth", "c": c.id, "key": bkey})
 				}
@@ -248,16 +248,18 @@ func TestVerifMetricsConcurrent(t *testing.T) {
 					case r < 2 || (len(mine) == 0 && !last): // new TCP connection
 						ip := rng.Intn(ni) + 1
 						c := &vmConn{id: int(nextID.Add(1)), ip: ip}
-						c.tcp = m.AddOpenTCPConnection(&vfTCPConn{local: vfListeners[g%2], remote: vfTCPAddr(ip)})
+						f := rng.Intn(3) + 1
+						c.tcp = m.AddOpenTCPConnection(&vfTCPConn{local: vfListeners[g%2], remote: vfAddrF(ip, f, false)})
 						open[g] = append(open[g], c)
-						lg(map[string]any{"ev": "Open", "c": c.id, "ip": ip})
+						lg(map[string]any{"ev": "Open", "c": c.id, "ip": ip, "f": f})
 					case r < 4: // new UDP association
 						ip, k := rng.Intn(ni)+1, rng.Intn(cfg.NK)+1
 						c := &vmConn{id: int(nextID.Add(1)), ip: ip}
 						m.AddCipherSearch("udp", true, time.Duration(n)*time.Millisecond)
-						c.udp = m.AddUDPNatEntry(vfUDPAddr(ip), vfKey(k))
+						f := rng.Intn(3) + 1
+						c.udp = m.AddUDPNatEntry(vfAddrF(ip, f, true), vfKey(k))
 						open[g] = append(open[g], c)
-						lg(map[string]any{"ev": "NatAdd", "c": c.id, "ip": ip, "key": k})
+						lg(map[string]any{"ev": "NatAdd", "c": c.id, "ip": ip, "key": k, "f": f})
 					default:
 						j := rng.Intn(len(mine))
 						c := mine[j]
